@@ -119,10 +119,27 @@ def many_table(ctx, rep, rule):
         blocks, _ = cells.feasible(body, prov, ev)
         return cells.tags(body, blocks)
 
+    nexts = {b.idx for b in body.calls() if (callee_path(b.term) or "").endswith("Iterator>::next")}
     for k in ["Null"] + EXC_KINDS:
         tg = cell("GetResponse", k)
         rep.check(rule, "OpGetMany::to_python|GetResponse/" + k, not cells.has_call(tg, "::set_item") and cells.has_call(tg, "PyDict::new"),
                   "%s is left out of the dict" % k, "a varbind carrying %s is inserted into the result dict" % k, body.loc(), obligation=True)
+        # skipping one varbind must not end the processing of the reply
+        def ev(t, k=k):
+            if t == ("discr", ("arg", 1)):
+                return pv["GetResponse"]
+            if is_value_discr(t):
+                return vv[k]
+            return None
+        _, decided = cells.feasible(body, prov, ev)
+        cont = []
+        for bi in decided:
+            if is_value_discr(prov.operand(body.blocks[bi].term["discr"])):
+                blocks, _ = cells.feasible(body, prov, ev, start=bi)
+                cont.append(bool((blocks - {bi}) & nexts))
+        rep.check(rule, "OpGetMany::to_python|GetResponse/%s/later-varbinds-still-read" % k, bool(cont) and all(cont),
+                  "the loop goes on to the next varbind", "a %s value ends the processing of the reply: later values are missing from the dict" % k,
+                  body.loc(), obligation=True)
     for k in DATA_KINDS:
         tg = cell("GetResponse", k)
         rep.check(rule, "OpGetMany::to_python|GetResponse/" + k, cells.has_call(tg, "::set_item"),
